@@ -374,6 +374,25 @@ pub fn hostile_strategy(parser: ParserId) -> BoxedStrategy<Vec<u8>> {
                 0u8..6,
             )
                 .prop_map(move |(f, nf, tail, mode)| {
+                    if mode == 5 && tail.first().map_or(false, |b| b % 3 == 0) {
+                        // exactly at a literal type's limit: M = (MAX_CODE - 1) / 2, I + L + A = M
+                        let m: u128 = [127u128, 32767, 2147483647, 9223372036854775807][tail.len() % 4];
+                        let (l, a) = ((tail[0] as u128 / 3) % 2, (tail[0] as u128 / 6) % 2);
+                        let i = m - l - a;
+                        let mut s = format!("{} {m} {i} {l} 0 {a}\n", if binary { "aig" } else { "aag" }).into_bytes();
+                        if !binary {
+                            // no input lines: the parse has to fail cleanly, not panic
+                            s.extend_from_slice(b"2\n");
+                        } else {
+                            if l == 1 {
+                                s.extend_from_slice(b"1\n");
+                            }
+                            if a == 1 {
+                                s.extend_from_slice(&[1, 0]);
+                            }
+                        }
+                        return s;
+                    }
                     let mut s = if binary { b"aig".to_vec() } else { b"aag".to_vec() };
                     // mode 0: all fields hostile; other modes: keep M I L small so that the later
                     // fields are reached
